@@ -43,6 +43,12 @@ let pollable_main () =
       | "clear" :: _ -> p := plb_step !p PlClear; show ()
       | "getfd" :: _ -> p := plb_step !p PlGetFd; show ()
       | "poll" :: _ -> show ()
+      | "window" :: what :: _ ->
+          let clear = (what = "clear") in
+          let (a, b) = c15_window clear in
+          let fd x = (match plb_readable x with Some true -> 1 | _ -> 0) in
+          print_endline (Printf.sprintf "window fd=%d flag=%d%s" (fd a) (if plb_raised a then 1 else 0)
+                           (if clear then Printf.sprintf " after-clear fd=%d" (fd b) else ""))
       | op :: _ -> print_endline ("badop " ^ op)
     done
   with End_of_file -> ()
